@@ -156,7 +156,7 @@ def r2(ctx):
     F_, N_ = 2, 4
     frame = 1
 
-    def run(atom_indices, ref_is_self, parallel):
+    def run(atom_indices, ref_is_self, parallel, ref_idx=None, frame=1):
         # `xyz` is a property of the class: reads go to _xyz, the setter also drops the cached traces (read off the class by C03-R3)
         def set_xyz(s_, v):
             s_._xyz = v
@@ -196,16 +196,20 @@ def r2(ctx):
         ts = TenSym(models={"_rmsd.superpose_atom_major": kernel})
         x0 = Ten.sym("x", (F_, N_, 3))
         r0 = x0 if ref_is_self else Ten.sym("r", (F_, N_, 3))
-        ts.run_fn(fn, self=me, reference=ref, frame=frame, atom_indices=atom_indices, ref_atom_indices=None, parallel=parallel)
+        ts.run_fn(fn, self=me, reference=ref, frame=frame, atom_indices=atom_indices, ref_atom_indices=ref_idx, parallel=parallel)
         return ts, me, rec, x0, r0
 
     def at(t, f, a_, k):
         return t.data[(f * t.shape[1] + a_) * 3 + k]
-    for atom_indices in (None, [1, 3]):
-        for ref_is_self in (False, True):
-            cfg_ = "atoms %s, reference %s" % ("all" if atom_indices is None else atom_indices, "= the trajectory itself" if ref_is_self else "another trajectory")
+    configs = [(None, None, False, 1), (None, None, True, 1), ([1, 3], None, False, 1), ([1, 3], None, True, 1), ([1, 3], [0, 2], False, 0)]
+    if ctx.tier == "thorough":
+        configs += [([1, 3], [0, 2], True, 1), ([0], None, True, 0), ([0, 1, 2, 3], [3, 2, 1, 0], False, 1), (None, None, True, 0)]
+    for atom_indices, ref_idx, ref_is_self, frame in configs:
+        for _once in (0,):
+            cfg_ = "atoms %s%s, reference %s, frame %d" % ("all" if atom_indices is None else atom_indices, "" if ref_idx is None else " onto reference atoms %s" % ref_idx,
+                                                     "= the trajectory itself" if ref_is_self else "another trajectory", frame)
             try:
-                ts, me, rec, x0, r0 = run(atom_indices, ref_is_self, "PAR")
+                ts, me, rec, x0, r0 = run(atom_indices, ref_is_self, "PAR", ref_idx, frame)
             except PUnsupported as e:
                 ctx.undecided("C06-R2", fn, TRAJ, q, cfg_, "superpose not evaluable: %s" % e)
                 continue
@@ -216,10 +220,11 @@ def r2(ctx):
             n = len(idx)
             inv = Rat(Poly.const(1)) / n
             mean = [[sum((at(x0, f, a_, k) for a_ in idx), Rat(Poly.const(0))) * inv for k in range(3)] for f in range(F_)]
-            rmean = [sum((at(r0, frame, a_, k) for a_ in idx), Rat(Poly.const(0))) * inv for k in range(3)]
+            ridx = idx if ref_idx is None else ref_idx
+            rmean = [sum((at(r0, frame, a_, k) for a_ in ridx), Rat(Poly.const(0))) * inv for k in range(3)]
             want = {
                 "mobile": Ten((F_, n, 3), [at(x0, f, a_, k) - mean[f][k] for f in range(F_) for a_ in idx for k in range(3)]),
-                "target": Ten((1, n, 3), [at(r0, frame, a_, k) - rmean[k] for a_ in idx for k in range(3)]),
+                "target": Ten((1, n, 3), [at(r0, frame, a_, k) - rmean[k] for a_ in ridx for k in range(3)]),
                 "displace": Ten((F_, N_, 3), [at(x0, f, a_, k) - mean[f][k] for f in range(F_) for a_ in range(N_) for k in range(3)]),
             }
             want["g_mobile"] = Ten((F_,), [sum((e * e for e in want["mobile"].data[f * n * 3:(f + 1) * n * 3]), Rat(Poly.const(0))) for f in range(F_)])
